@@ -14,7 +14,7 @@ func init() {
 	registerProperty(&PropertyInfo{
 		ID:         "C02",
 		Title:      "An acknowledged batch survives any later crash",
-		Rules:      []string{"C02.R1", "C02.R2", "C02.R3", "C02.R4", "C02.R5", "C02.R6", "C02.R7", "C13.R1", "C13.R2"},
+		Rules:      []string{"C02.R1", "C02.R2", "C02.R3", "C02.R4", "C02.R5", "C02.R6", "C02.R7", "C02.R8", "C13.R1", "C13.R2"},
 		Decides:    "ordering over ALL control-flow paths instead of sampled crash points: every acknowledgement (close/nil-send on an ack channel, nil call of a persisted-callback) is reachable only behind the success edge of a snapshot persist of the snapshot grabbed together with those acks; acks happen only in the persister goroutine; every segment of a snapshot is persisted (or provably already on disk) before the snapshot that names it, a failed segment persist can never reach the snapshot persist, the deletion policy learns of a commit only after the snapshot persist succeeded; the persister's grab of (root, ack channels, callbacks) and the introducer's swap are each one critical section; safe mode creates a buffered ack channel and Batch returns nil only after receiving from it; plus the file-level durability order of C13. the snapshot written in place of S after an in-memory merge lists only S's own elements or stand-ins built in place (C02.R5).",
 		NotCovered: "what the OS does below fsync; that the bytes written are a correct encoding (parts of C12/C13); the actual set of documents in the persisted snapshot (C01/C06).",
 	})
